@@ -45,119 +45,119 @@ pub fn monitors() -> Vec<Monitor> {
         Monitor {
             prop: "C01",
             run: c01::run,
-            cases: (40000, 600000, 80),
+            cases: (160000, 1800000, 80),
             rule: "one case = one round trip m -> c -> m' through a pair of API paths (block/blocks/inout/b2b schedules, padded x padding x form, one-shot, buffered, byte stream with seek-back, keystream core, CTS) on one cipher config; non-trivial = at least 2 blocks or a partial block involved; distinct = (subject, cipher config, length/residue class, path/schedule classes of both directions)",
             thresholds: c01_thresholds,
         },
         Monitor {
             prop: "C04",
             run: c04::run_c04,
-            cases: (40000, 600000, 60),
+            cases: (160000, 1800000, 60),
             rule: "one case = one (CTR flavour, cipher config, IV class incl. counter fields at 2^k-1 and all-ones nonce words, start block index incl. ~2^16/2^32/2^64/limit-room via set_block_pos, byte or block schedule); the spy cipher log must show E asked for layout(IV,i) for every block produced; non-trivial = the counter field crosses a 2^k-1 boundary (k>=8) or wraps, or the nonce has extra words; distinct = (flavour+front-end, cipher config, IV class, index class, length class)",
             thresholds: c04_thresholds,
         },
         Monitor {
             prop: "C05",
             run: c05::run,
-            cases: (40000, 600000, 60),
+            cases: (160000, 1800000, 60),
             rule: "one case = one (CTS variant, direction, cipher config, IV, message length L>=b chosen by block count and residue d, call form, output pre-fill); decryption is fed arbitrary bytes; non-trivial = every case (L>=b); distinct = (variant/direction, cipher config, n class {1,2,>2}, d class {b,1,b-1,mid}, form)",
             thresholds: c05_thresholds,
         },
         Monitor {
             prop: "C06",
             run: c04::run_c06,
-            cases: (20000, 300000, 60),
+            cases: (80000, 900000, 60),
             rule: "one case = one (BelT-CTR front-end, 16-byte-block cipher config of any width, IV incl. IVs crafted with D so that s0=E(IV) sits at 2^128-1/-2/-17/2^64-1, start block, schedule); the spy log must show E(IV) at construction and E(LE128(s0+i)) for every block; non-trivial = s0+i crosses a byte carry/wraps or width > 1; distinct = (front-end, cipher config, IV class, index class, length class)",
             thresholds: c06_thresholds,
         },
         Monitor {
             prop: "C07",
             run: c07::run,
-            cases: (40000, 600000, 80),
+            cases: (160000, 1800000, 80),
             rule: "one case = the same block sequence fed (a) one block per call and (b) through a generated schedule of mixed call kinds, or through the same permutation under a different declared parallel width; outputs and iv_state at every piece boundary must agree; non-trivial = the scheduled run formed >= 2 full backend batches plus a non-empty tail (seen in the spy log), or has >= 3 pieces; distinct = (subject, cipher config, length class, schedule class, batches, tail)",
             thresholds: c07_thresholds,
         },
         Monitor {
             prop: "C08",
             run: c08::run,
-            cases: (30000, 500000, 60),
+            cases: (120000, 1500000, 60),
             rule: "one case = one byte string cut into generated pieces (empties, boundary-then-short, straddles, single bytes, random) fed to a byte-level stream cipher / buffered CFB and compared with one call on the whole string, or one message whose one-shot CFB/CFB-8 output is compared with the output on each sampled prefix (every k in the last two blocks); non-trivial = more than one block and >= 2 pieces; distinct = (subject, cipher config, residue class, schedule class)",
             thresholds: c08_thresholds,
         },
         Monitor {
             prop: "C09",
             run: c09::run,
-            cases: (30000, 500000, 60),
+            cases: (120000, 1500000, 60),
             rule: "one case = run(m[..k]); export; import into a fresh instance; run(m[k..]) for 1-4 chained cut points (block cuts; byte cuts for buffered CFB via get_state/from_state), compared with the uninterrupted run; at every cut the exported value is compared with the chaining value computed from the object's own input/output (or the next block seen by the spy cipher), and with the state of the opposite direction fed corresponding data; non-trivial = >= 2 blocks; distinct = (subject, cipher config, length class, cut position class, number of cuts)",
             thresholds: c09_thresholds,
         },
         Monitor {
             prop: "C10",
             run: c10::run,
-            cases: (12000, 200000, 40),
+            cases: (48000, 600000, 40),
             rule: "one case = one history of 3-24 {seek::<T>(q), apply(n), current_pos::<T>} operations on one seekable stream cipher, starting at 0 or at a far block (2^16, 2^32, 2^64, limit-40, around u128::MAX/bs) reached with set_block_pos+from_core; a shadow (block, offset) position is compared with try_current_pos in all five integer types after every op, and produced bytes with the keystream from offset 0 / a second instance seeking delta earlier / the definitional keystream (gated); non-trivial = >= 3 ops; distinct = (subject, cipher config, IV class, backward seek seen, seek inside block after partial read seen, offset >= 2^32 seen, far start)",
             thresholds: c10_thresholds,
         },
         Monitor {
             prop: "C11",
             run: c11::run,
-            cases: (20000, 300000, 40),
-            rule: "one case = one history on an instance positioned 0-4 blocks before the end of its keystream (via set_block_pos+from_core, or by handing out blocks 0..2 and then seeking): requests of room, room+-1, room+-block, ... bytes, seeks inside and past the end, with (current_pos, block_pos, remaining_blocks, caller buffer) compared before/after every refused call and a counter-block -> position map checked for reuse; or one try_apply_keystream_partial call on a core with 0-5 blocks remaining; non-trivial = every case (all are within 5 blocks of the limit); distinct = (subject, cipher config, start distance, reached-by-seek, exact-fit seen, +1 byte seen, +block seen)",
+            cases: (80000, 900000, 40),
+            rule: "one case = a remaining_blocks/request probe at a block position anywhere in the keystream (0, 2^16, 2^31, 2^32, 2^63, 2^64, 2^127, random; exact remaining count demanded whenever one is reported), or one history on an instance positioned 0-4 blocks before the end of its keystream (via set_block_pos+from_core, or by handing out blocks 0..2 and then seeking): requests of room, room+-1, room+-block, ... bytes, seeks inside and past the end, with (current_pos, block_pos, remaining_blocks, caller buffer) compared before/after every refused call and a counter-block -> position map checked for reuse; or one try_apply_keystream_partial call on a core with 0-5 blocks remaining; non-trivial = every case (all are within 5 blocks of the limit); distinct = (subject, cipher config, start distance, reached-by-seek, exact-fit seen, +1 byte seen, +block seen)",
             thresholds: c11_thresholds,
         },
         Monitor {
             prop: "C12",
             run: c12::run,
-            cases: (30000, 500000, 80),
+            cases: (120000, 1500000, 80),
             rule: "one case = one operation sequence executed in place and buffer-to-buffer (two different output pre-fills, at least one non-zero: ones / random / copy of input / complement) on separate instances; outputs, exported state after every piece and the read-only input are compared; covers block/blocks/inout calls, padded x 4 forms, one-shot, byte streams, cores incl. the partial call, CTS; non-trivial = non-empty data; distinct = (subject, cipher config, length class, schedule class, pre-fill)",
             thresholds: c12_thresholds,
         },
         Monitor {
             prop: "C13",
             run: c13::run,
-            cases: (40000, 600000, 80),
+            cases: (160000, 1800000, 80),
             rule: "one case = one row of the contract table (CTS with L<b / L>=b; every equal-length b2b API with unequal lengths; padded decryption of a non-multiple length in 4 forms x 5 paddings; construction from key/IV slices of wrong/right length for every type) with all caller buffers and canary zones compared byte-for-byte after a rejected call, or one history of another property's workload run in panic-only mode (every unwind out of a public operation is recorded by the panic hook; harness-internal panics are harness errors); non-trivial = every case; distinct = (row kind or workload, subject, cipher config, form/padding/length class)",
             thresholds: c13_thresholds,
         },
         Monitor {
             prop: "C14",
             run: c14::run,
-            cases: (30000, 500000, 60),
+            cases: (120000, 1500000, 60),
             rule: "one case = one message pushed through a listed pair (or triple/quadruple) of front-ends: buffered/block-level/one-shot CFB; OfbCore as block encryptor/decryptor/keystream core/byte stream; CTR and BelT cores block-wise vs byte-level; CTS on whole blocks vs plain CBC / raw block encryption (CS3: last two blocks exchanged; n=1 equal); the four constructors of every type; non-trivial = >= 2 blocks (every case for the CTS and constructor pairs); distinct = (pair, cipher config, length class, schedule classes)",
             thresholds: c14_thresholds,
         },
         Monitor {
             prop: "C15",
             run: c15::run,
-            cases: (30000, 500000, 60),
+            cases: (120000, 1500000, 60),
             rule: "one case = dec(c) vs dec(c xor delta@j) (or enc for causality) under one schedule, delta in {1 bit, 1 byte, whole block}, j in {first, middle, last}; support of the difference compared exactly with the definition (CBC: j garbled, j+1 = delta, rest 0; CFB: j = delta, j+1 changed, rest 0; CFB-8: byte j = delta, b bytes free, then 0; CTR/OFB/BelT: delta in place only, spy-cipher inputs identical for different data; PCBC: constant propagation; IGE: indefinite propagation; the cancellation cases the definition itself allows are excluded and counted); non-trivial = >= 2 blocks; distinct = (subject, cipher config, length class, j class, delta class, schedule class)",
             thresholds: c15_thresholds,
         },
         Monitor {
             prop: "C16",
             run: c16::run,
-            cases: (20000, 300000, 60),
+            cases: (80000, 900000, 60),
             rule: "one case = history h1 on an object, clone, then h2 on the original and h3 on the clone interleaved op by op under a generated schedule (or two separately built instances, same or different key/IV; or original and clone driven from two barrier-released OS threads), every operation result (output bytes + exported state/position) compared with fresh instances replaying h1;h2 and h1;h3 in isolation; non-trivial = every case; distinct = (subject, cipher config, interleaving hash, clone point)",
             thresholds: c16_thresholds,
         },
         Monitor {
             prop: "C17",
             run: c17::run,
-            cases: (20000, 300000, 0),
+            cases: (80000, 900000, 0),
             rule: "one case = (a) Debug {:?}, {:#?} and AlgorithmName text of one type collected over 3 variants of (key, IV, history) before and after the history: the set must be a singleton; or (b) one object built in zero-filled harness-owned storage, driven through a random history in place, then dropped in place while the storage is read back with volatile reads and searched for every high-entropy 8-byte window (and its byte reversal) of the IV, exported state, E(state), E(IV) and buffered keystream; with feature zeroize: 0 windows may remain; without (control build): windows must be found before and after drop, which shows the scan sees what it looks for; non-trivial = every case; distinct = (check, subject, cipher config, history length)",
             thresholds: c17_thresholds,
         },
         Monitor {
             prop: "C02",
             run: c02::run,
-            cases: (6000, 120000, 60),
+            cases: (24000, 360000, 60),
             rule: "one case = one (mode, direction, cipher config, IV, block sequence, feeding schedule with mixed call kinds, output pre-fill); non-trivial = at least 2 blocks; distinct = (subject, cipher config, length class relative to the parallel width, schedule class)",
             thresholds: c02_thresholds,
         },
         Monitor {
             prop: "C03",
             run: c03::run,
-            cases: (6000, 120000, 60),
+            cases: (24000, 360000, 60),
             rule: "one case = one (CFB/CFB-8/OFB front-end, direction, cipher config, IV, message, chunking); non-trivial = more than one block of data (and >= 2 pieces for chunked front-ends); distinct = (subject, cipher config, residue class of the length mod block size, schedule/form class)",
             thresholds: c03_thresholds,
         },
@@ -326,6 +326,7 @@ fn c11_thresholds(st: &Stats, tier: Tier, _cfgs: &[String]) -> Vec<String> {
         need(st, &mut u, &format!("over-by-1-err.{}", f), 3);
         need(st, &mut u, &format!("over-by-block-err.{}", f), 3);
         need(st, &mut u, &format!("remaining-near-limit.{}/stream", f), 5);
+        need(st, &mut u, &format!("remaining-anywhere.{}", f), 5);
     }
     u
 }
